@@ -208,53 +208,7 @@ def collection_rules(ck, repo):
 
     # ---------------------------------------------------------------- R4
     with ck.rule("R4"):
-        body, ifn = arm_body("FragmentSpreadNode")
-        rec = effects_in(body, ("collect_fields",))
-        adds = effects_in(body, ("add",))
-        for e in rec:
-            conds = fv.conditions(e)
-            not_visited = [t for t, o in conds if o == "F" and " in " in t and "visited" in t]
-            ck.ob("spread arm: recursion only when the fragment name is not in the visited set", bool(not_visited),
-                  collect, e, construct="spread:not-visited", detail=f"conditions: {conds}")
-            ok_add = any(fv.dominated_by(e, a) for a in adds) if adds else False
-            ck.ob("spread arm: the name is added to the visited set before the recursion", ok_add, collect, e,
-                  construct="spread:add-dominates")
-            if adds:
-                ck.ob("spread arm: the fragment is marked visited only after its @skip/@include gate let it through (a skipped spread must not hide a later one)",
-                      any(t.startswith("await should_include_node(") and o == "T" for t, o in fv.conditions(adds[0])), collect, adds[0], construct="spread:add-after-gate",
-                      detail=str(fv.conditions(adds[0])))
-                a = adds[0]
-                same = not_visited and unparse(a.args[0]) == not_visited[0].split(" in ")[0] and \
-                    unparse(a.func.value) == not_visited[0].split(" in ")[1]
-                ck.ob("spread arm: the membership test and the add use the same name and the same set", bool(same),
-                      collect, a, construct="spread:add-same")
-            cond = [t for t, o in conds if o == "T" and t.startswith("does_fragment_condition_match(")]
-            ck.ob("spread arm: recursion guarded by does_fragment_condition_match(...) == True", bool(cond), collect, e,
-                  construct="spread:type-condition", detail=f"conditions: {conds}")
-            if cond:
-                c = ast.parse(cond[0], mode="eval").body
-                fd = [n for n in walk_no_nested(collect.node) if isinstance(n, ast.Assign) and len(c.args) == 3 and unparse(n.targets[0]) == unparse(c.args[1])]
-                ok_fd = len(fd) == 1 and unparse(fd[0].value).startswith(f"{collect.positional_params[0]}.fragments[")
-                ck.ob("spread arm: the condition is evaluated for (context, the spread fragment's definition, the runtime type)",
-                      len(c.args) == 3 and unparse(c.args[2]) == collect.positional_params[1] and unparse(c.args[0]) == collect.positional_params[0]
-                      and ok_fd, collect, e, construct="spread:type-condition-args", detail=cond[0])
-                ck.ob("spread arm: the definition is the one registered under the spread's name",
-                      ok_fd and not_visited and unparse(fd[0].value) == f"{collect.positional_params[0]}.fragments[{not_visited[0].split(' in ')[0]}]", collect, e,
-                      construct="spread:definition-by-name")
-            # recursion passes the same accumulators and the runtime type
-            _rec_args(ck, collect, e, "spread")
-        body, ifn = arm_body("InlineFragmentNode")
-        for e in effects_in(body, ("collect_fields",)):
-            conds = fv.conditions(e)
-            cond = [t for t, o in conds if o == "T" and t.startswith("does_fragment_condition_match(")]
-            ck.ob("inline arm: recursion guarded by does_fragment_condition_match(...) == True", bool(cond), collect, e,
-                  construct="inline:type-condition", detail=f"conditions: {conds}")
-            if cond:
-                c = ast.parse(cond[0], mode="eval").body
-                ck.ob("inline arm: the condition is evaluated for (context, this selection, the runtime type)",
-                      len(c.args) == 3 and unparse(c.args[0]) == collect.positional_params[0] and unparse(c.args[1]) == var and unparse(c.args[2]) == collect.positional_params[1],
-                      collect, e, construct="inline:type-condition-args", detail=cond[0])
-            _rec_args(ck, collect, e, "inline")
+        _fragment_rows(ck, collect, var)
         _condition_match_table(ck, repo)
 
     # ---------------------------------------------------------------- R5
@@ -366,6 +320,120 @@ def _pick(expr, env, val, atoms) -> str:
             return "<undecided>"
         expr = expr.body if c else expr.orelse
     return unparse(expr)
+
+
+def possible_kinds(row, subject, universe):
+    """The classes of `universe` that `subject` may still belong to after the isinstance tests of the path."""
+    poss = set(universe)
+    for txt, out in row["conds"]:
+        try:
+            e = ast.parse(txt, mode="eval").body
+        except SyntaxError:
+            continue
+        neg = False
+        while isinstance(e, ast.UnaryOp) and isinstance(e.op, ast.Not):
+            e, neg = e.operand, not neg
+        if not (isinstance(e, ast.Call) and isinstance(e.func, ast.Name) and e.func.id == "isinstance" and len(e.args) == 2 and unparse(e.args[0]) == subject):
+            continue
+        c = e.args[1]
+        classes = {unparse(x) for x in c.elts} if isinstance(c, ast.Tuple) else {unparse(c)}
+        if (out == "T") != neg:
+            poss &= classes
+        else:
+            poss -= classes
+    return poss
+
+
+def _fragment_rows(ck, collect, var):
+    """CollectFields 3.d / 3.e as a path-outcome table of collect_fields: one row per path through one selection, classified by
+    the kind of the selection, whatever the arms look like (separate arms, one arm for both fragment kinds, helpers)."""
+    from ..pathtab import outcome_rows, truth
+    fv = FuncView(collect)
+    ctx, rt, _sel, acc, vis = collect.positional_params[:5]
+    universe = ("FieldNode", "InlineFragmentNode", "FragmentSpreadNode")
+    name = f"{var}.name.value"
+    accs, viss = {acc, "{}", "dict()"}, {vis, "set()"}
+    n = {"FragmentSpreadNode": 0, "InlineFragmentNode": 0}
+    for r in outcome_rows(fv):
+        if sum(1 for nd in r["trace"].nodes if nd.kind == "for") != 2:
+            continue  # exactly one selection walked on this path
+        kinds = possible_kinds(r, var, universe)
+        if len(kinds) != 1 or "FieldNode" in kinds:
+            continue
+        kind = next(iter(kinds))
+        sub = r["sym"]["__sub__"]
+        nodes = r["trace"].nodes
+        rec, adds, gate_at = [], [], None
+        gate = None
+        for i, nd in enumerate(nodes):
+            if nd.ast is None:
+                continue
+            if nd.kind != "stmt":
+                continue
+            for c in ast.walk(nd.ast):
+                if isinstance(c, ast.Call) and callee_last(c) == "collect_fields":
+                    rec.append((i, c))
+                if isinstance(c, ast.Call) and callee_last(c) == "add" and isinstance(c.func, ast.Attribute) and unparse(sub(c.func.value)) in viss:
+                    adds.append((i, c))
+        # position of the gate among the tests, in path order: conds are in path order, so are the test nodes
+        tests = [i for i, nd in enumerate(nodes) if nd.kind == "test"]
+        gi = [k for k, (t, o) in enumerate(r["conds"]) if t.replace(" ", "").startswith(f"awaitshould_include_node({ctx},{var})".replace(" ", ""))]
+        included = r["conds"][gi[-1]][1] if gi else None
+        gate_at = tests[gi[-1]] if gi and len(tests) == len(r["conds"]) else None
+        visited = None
+        for t, o in r["conds"]:
+            tt = t.replace(" ", "")
+            for v_ in viss:
+                if tt == f"{name}in{v_}".replace(" ", ""):
+                    visited = o
+                if tt == f"{name}notin{v_}".replace(" ", ""):
+                    visited = "F" if o == "T" else "T"
+        where = r["last"] or collect.node
+        tag = "spread" if kind == "FragmentSpreadNode" else "inline"
+        if included == "F":
+            ck.ob(f"{tag}: a selection its @skip/@include gate refuses contributes nothing and marks nothing", not rec and not adds, collect, where, construct=f"{tag}:gate-refuses")
+        if kind == "FragmentSpreadNode":
+            frag = f"{ctx}.fragments[{name}]"
+            if visited == "T":
+                ck.ob("spread: a fragment already visited is not collected again", not rec, collect, where, construct="spread:not-visited")
+            for i, c in adds:
+                ok = included == "T" and (gate_at is None or gate_at < i)
+                ck.ob("spread arm: the fragment is marked visited only after its @skip/@include gate let it through (a skipped spread must not hide a later one)", ok, collect, c,
+                      construct="spread:add-after-gate", detail=f"gate outcome {included}")
+                ck.ob("spread arm: the membership test and the add use the same name and the same set", visited == "F" and unparse(sub(c.args[0])) == name, collect, c,
+                      construct="spread:add-same", detail=f"adds {unparse(sub(c.args[0]))}; membership outcome {visited}")
+            for i, c in rec:
+                n[kind] += 1
+                ck.ob("spread arm: recursion only when the fragment name is not in the visited set", visited == "F", collect, c, construct="spread:not-visited", detail=str(r["conds"]))
+                ck.ob("spread arm: the name is added to the visited set before the recursion", any(j < i for j, _ in adds), collect, c, construct="spread:add-dominates")
+                ck.ob("spread arm: recursion only for a spread its gate let through", included == "T", collect, c, construct="gate:FragmentSpreadNode")
+                m = truth(r, f"does_fragment_condition_match({ctx}, {frag}, {rt})")
+                ck.ob("spread arm: recursion guarded by does_fragment_condition_match(context, the definition registered under the spread's name, the runtime type) == True", m == "T", collect, c,
+                      construct="spread:type-condition-args", detail=str([t for t, o in r["conds"] if "does_fragment_condition_match" in t]))
+                a = [unparse(sub(x)) for x in c.args] + [None] * 5
+                kw = {k.arg: unparse(sub(k.value)) for k in c.keywords}
+                got = (a[0], a[1], a[2], kw.get("fields", a[3]), kw.get("visited_fragment_names", a[4]))
+                ok = got[0] == ctx and got[1] == rt and got[2] == f"{frag}.selection_set" and got[3] in accs and got[4] in viss
+                ck.ob("spread arm: recursion collects the definition's selection set into the same accumulator, with the same context, runtime type and visited set", ok, collect, c,
+                      construct="spread:rec-args", detail=str(got))
+        else:
+            for i, c in rec:
+                n[kind] += 1
+                ck.ob("inline arm: recursion only for a fragment its gate let through", included == "T", collect, c, construct="gate:InlineFragmentNode")
+                m = truth(r, f"does_fragment_condition_match({ctx}, {var}, {rt})")
+                ck.ob("inline arm: recursion guarded by does_fragment_condition_match(context, this selection, the runtime type) == True", m == "T", collect, c,
+                      construct="inline:type-condition-args", detail=str([t for t, o in r["conds"] if "does_fragment_condition_match" in t]))
+                a = [unparse(sub(x)) for x in c.args] + [None] * 5
+                kw = {k.arg: unparse(sub(k.value)) for k in c.keywords}
+                got = (a[0], a[1], a[2], kw.get("fields", a[3]), kw.get("visited_fragment_names", a[4]))
+                ok = got[0] == ctx and got[1] == rt and got[2] == f"{var}.selection_set" and got[3] in accs and got[4] in viss
+                ck.ob("inline arm: recursion collects the fragment's own selection set into the same accumulator, with the same context, runtime type and visited set", ok, collect, c,
+                      construct="inline:rec-args", detail=str(got))
+            ck.ob("inline: an inline fragment marks nothing visited", not adds, collect, where, construct="inline:no-add")
+    for k, v in n.items():
+        if v == 0:
+            raise AnalysisError(f"collect_fields: no path recurses for a {k}")
+    ck.count("fragment_recursion_paths", sum(n.values()), 2)
 
 
 def _rec_args(ck, collect, call, tag):
@@ -838,80 +906,69 @@ def _completion_chain(ck, repo):
 
 
 def _wrapper_fold(ck, repo, g, side):
-    """Shared by C01.R9 / C04.R4 / C05.R3: the wrapper-composition function has an
-    arm for list and non-null wrappers, collects them outermost-first and applies
-    them by a reverse fold around the inner type's leaf coercer."""
-    gv = FuncView(g)
+    """Shared by C01.R9 / C04.R4 / C05.R3 (E13, sa/absint.py): the chain builder is interpreted over every type shape up to
+    three wrappers deep and its result compared, as a term, with the composition the specification prescribes -
+    whichever way the builder is written (reverse fold over collected wrappers, second loop over collected types,
+    recursion, reduce)."""
+    from .. import absint
+    from ..absint import PartialV, Sym, TypeV
     slot = {"outputs": "output_coercer", "inputs": "input_coercer", "literals": "literal_coercer"}[side]
-    whiles = [l for l in gv.loops() if isinstance(l, ast.While)]
-    if len(whiles) != 1:
-        raise AnalysisError(f"{g.short}: expected one unwrapping while loop")
-    w = whiles[0]
-    ck.ob(f"{g.name}: unwraps while the type is a wrapping type", unparse(w.test).endswith(".is_wrapping_type"), g, w,
-          construct="fold:while")
-    tvar = unparse(w.test).rsplit(".", 1)[0]
-    apps = [c for c in gv.calls("append") if contains(w, c)]
-    kinds = {}
-    for c in apps:
-        pushed = unparse(c.args[0]) if c.args else ""
-        conds = set(gv.conditions(c)) - {(unparse(w.test), "T")}
-        # the two flags are exclusive class constants of the two wrapper classes: the arms may come in either order
-        pos = {(t, o) for t, o in conds if o == "T"}
-        if "list_coercer" in pushed and pos == {(f"{tvar}.is_list_type", "T")} and conds - pos <= {(f"{tvar}.is_non_null_type", "F")}:
-            kinds["is_list_type"] = c
-        elif "non_null_coercer" in pushed and pos == {(f"{tvar}.is_non_null_type", "T")} and conds - pos <= {(f"{tvar}.is_list_type", "F")}:
-            kinds["is_non_null_type"] = c
-    ck.ob(f"{g.name}: a list wrapper (and only a list wrapper) pushes the list coercer", "is_list_type" in kinds, g, w, construct="fold:list-arm")
-    ck.ob(f"{g.name}: a non-null wrapper (and only it) pushes the non-null coercer", "is_non_null_type" in kinds, g, w, construct="fold:non-null-arm")
-    same_list = len({unparse(c.func.value) for c in apps}) == 1 and len(apps) >= 2
-    ck.ob(f"{g.name}: both arms push onto the same wrapper list", same_list, g, w, construct="fold:same-list")
-    # step: inner_type = wrapped type, executed on every iteration
-    steps = [n for n in w.body if isinstance(n, ast.Assign) and unparse(n.targets[0]) == tvar]
-    ok_step = len(steps) == 1 and (unparse(steps[0].value) in (f"{tvar}.wrapped_type", "wrapped_type"))
-    ck.ob(f"{g.name}: each iteration descends to the wrapped type", ok_step, g, steps[0] if steps else w, construct="fold:step")
-    # leaf from the inner type's slot
-    leaf = [n for n in walk_no_nested(g.node) if isinstance(n, ast.Assign) and unparse(n.value) == f"{tvar}.{slot}"]
-    ck.ob(f"{g.name}: the leaf coercer is the unwrapped type's {slot}", len(leaf) == 1, g, leaf[0] if leaf else g.node,
-          construct="fold:leaf")
-    # reverse fold
-    fors = [l for l in gv.loops() if isinstance(l, ast.For)]
-    ok_fold, ok_rev = False, False
-    lst = unparse(apps[0].func.value) if apps else "?"
-    for lp in fors:
-        it = unparse(lp.iter)
-        body = [n for n in lp.body if isinstance(n, ast.Assign)]
-        if len(body) == 1 and isinstance(body[0].value, ast.Call) and dotted(body[0].value.func) == "partial":
-            pc = body[0].value
-            acc = unparse(body[0].targets[0])
-            if unparse(pc.args[0]) == unparse(lp.target) and arg_text(pc, None, "inner_coercer") == acc:
-                ok_fold = leaf and unparse(leaf[0].targets[0]) == acc
-                ok_rev = it in (f"reversed({lst})", f"{lst}[::-1]")
-    ck.ob(f"{g.name}: wrappers are folded around the leaf as inner_coercer", bool(ok_fold), g, fors[0] if fors else g.node,
-          construct="fold:accumulate")
-    ck.ob(f"{g.name}: the fold runs innermost-first (reversed), so the outermost wrapper runs first", ok_rev, g,
-          fors[0] if fors else g.node, construct="fold:reversed")
-    rets = gv.returns()
-    ck.ob(f"{g.name}: returns the folded coercer", len(rets) == 1 and leaf and unparse(rets[0].value) == unparse(leaf[0].targets[0]), g,
-          rets[0] if rets else g.node, construct="fold:return")
-    if side == "outputs":
-        c = kinds.get("is_list_type")
-        ok = False
-        if c is not None and isinstance(c.args[0], ast.Call) and dotted(c.args[0].func) == "partial":
-            pc = c.args[0]
-            sel = pc.args[0]
-            flag = g.positional_params[1]
-            ok = (isinstance(sel, ast.IfExp) and unparse(sel.test) == flag and unparse(sel.body) == "list_coercer_concurrently"
-                  and unparse(sel.orelse) == "list_coercer_sequentially") or \
-                 (isinstance(sel, ast.IfExp) and unparse(sel.test) == f"not {flag}" and unparse(sel.orelse) == "list_coercer_concurrently"
-                  and unparse(sel.body) == "list_coercer_sequentially")
-            it = arg_text(pc, None, "item_type")
-            ok_item = it in ("wrapped_type", f"{tvar}.wrapped_type")
-            ck.ob(f"{g.name}: list arm passes item_type = the wrapped type", ok_item, g, pc, construct="fold:item-type", detail=str(it))
-        ck.ob(f"{g.name}: list arm selects the concurrent variant iff the `concurrently` flag is set", ok, g, c or w,
-              construct="fold:list-variant")
-        c = kinds.get("is_non_null_type")
-        ck.ob(f"{g.name}: non-null arm pushes non_null_coercer", c is not None and unparse(c.args[0]) == "non_null_coercer", g, c or w,
-              construct="fold:non-null-coercer")
+    pkg = f"tartiflette.coercers.{side}"
+    nn = Sym(f"{pkg}.non_null_coercer.non_null_coercer")
+
+    def spec(t, flag):
+        if t.kind == "named":
+            return Sym(f"{t.name}.{slot}") if t.has_slot else None
+        inner = spec(t.inner, flag)
+        if t.kind == "nonnull":
+            kw = {"graphql_type": t} if side == "inputs" else {}
+            return PartialV(nn, (), {**kw, "inner_coercer": inner})
+        if side == "outputs":
+            fn = Sym(f"{pkg}.list_coercer.list_coercer_" + ("concurrently" if flag else "sequentially"))
+            return PartialV(fn, (), {"item_type": t.inner, "inner_coercer": inner})
+        fn = Sym(f"{pkg}.list_coercer.list_coercer")
+        kw = {"is_non_null_item_type": t.inner.kind == "nonnull"} if side == "literals" else {}
+        return PartialV(fn, (), {**kw, "inner_coercer": inner})
+
+    def same(got, want):
+        """Term equality; the do-nothing leaf (spec None) is any lambda that answers None."""
+        if want is None:
+            return isinstance(got, absint.LambdaV) and isinstance(got.node.body, ast.Constant) and got.node.body.value is None
+        if isinstance(want, PartialV):
+            if not isinstance(got, PartialV) or absint.norm(got.func) != absint.norm(want.func) or got.args or set(got.kwargs) != set(want.kwargs):
+                return False
+            return all(same(got.kwargs[k], v) if k == "inner_coercer" else absint.norm(got.kwargs[k]) == absint.norm(v) for k, v in want.kwargs.items())
+        return absint.norm(got) == absint.norm(want)
+
+    def show(want):
+        if want is None:
+            return "<lambda: None>"
+        if isinstance(want, PartialV):
+            return "partial(" + ", ".join([repr(want.func)] + [f"{k}={show(v) if k == 'inner_coercer' else repr(v)}" for k, v in sorted(want.kwargs.items())]) + ")"
+        return repr(want)
+
+    helpers = [g] + [h for h in g.module.funcs.values() if h is not g and h.parent is None and h.cls is None]
+    uni = [u for h in helpers for u in absint.uniformity_violations(h)]
+    ck.ob(f"{g.name}: treats every nesting level alike (no counters, lengths or integer arithmetic)", not uni, g, g.node, construct="fold:uniform", detail=str(uni))
+    flags = (True, False) if side == "outputs" else (None,)
+    n = 0
+    for t in absint.shapes(3):
+        for flag in flags:
+            it = absint.Interp(repo, g.module)
+            args = [t] + ([flag] if side == "outputs" else [])
+            try:
+                got = it.run(g, args)
+                err = None
+            except absint.Unsupported as e:
+                raise AnalysisError(f"{g.short}: cannot be interpreted over type shapes: {e}")
+            except absint.PyRaise as e:
+                got, err = None, f"raises {e.name}"
+            want = spec(t, flag)
+            n += 1
+            tag = repr(t) + ("" if flag is None else f":concurrently={int(flag)}")
+            ck.ob(f"{g.name}({tag}) composes the coercers the type expression prescribes, outermost wrapper outermost", err is None and same(got, want), g, g.node,
+                  construct=f"fold:{tag}", detail=f"got {err or got!r}; the type prescribes {show(want)}")
+    ck.count(f"{side}_chain_shapes", n, 28 if side == "outputs" else 14)
 
 
 def _type_resolver(ck, repo):
